@@ -2,6 +2,7 @@ package frame
 
 import (
 	"bufio"
+	"bytes"
 	"fmt"
 	"io"
 	"time"
@@ -180,6 +181,20 @@ func (r *Reader) Read() (Frame, error) {
 			msg, err := mp.Read(rawMessage, isV2)
 			if err != nil {
 				return nil, newError("unable to decode message: %s", err.Error())
+			}
+
+			// when the received payload differs from the encoding of the decoded message
+			// (bytes after a string terminator, unknown trailing bytes), the received checksum
+			// is not valid anymore once the frame is re-encoded.
+			// store the payload that will be re-encoded and re-compute the checksum.
+			if canon := mp.Write(msg, isV2); !bytes.Equal(canon.Payload, rawMessage.Payload) {
+				rawMessage.Payload = canon.Payload
+				switch f := f.(type) {
+				case *V1Frame:
+					f.Checksum = f.GenerateChecksum(mp.CRCExtra())
+				case *V2Frame:
+					f.Checksum = f.GenerateChecksum(mp.CRCExtra())
+				}
 			}
 
 			switch f := f.(type) {
